@@ -27,6 +27,14 @@
                                  the same system; intact = failing closers whose report is complete (`reported`) at the
                                  moment main returns — with the built-in logger each report is one atomic write of its
                                  own line                                           → calls=… done=… intact=<k>
+    closep <regs> <opts> <errmask> <seed>
+                                 a start through ioc.Register + ioc.Run: the option list `append(ops, registerHandlers...)`
+                                 applied to a new App (`iocRunRegistry`, section 8 of Ioc.Conc); the Close system over the
+                                 closers that are in the App's registry after the last option; a closer that is not there is
+                                 never invoked                                      → calls=… done=…
+    closek <n> <errmask> <kinds> <seed>
+                                 n closers of the Go kinds `kinds`: the Close system over the closers that get a definition in
+                                 the tag scan (`scanDefined codeScanGuard`: all of them, whatever the kind)
     gmor <g> <trials>            g callers LoadOrStoreFn(name, own definition) on an empty map, all past the Load before the
                                  first LoadOrStore (`gmorSched`)                   → defs=<n> listed=<n> kept=<0|1>
     gscan <n> <trials> <seed>    one scanning round over n+1 components, no scanner failing, and the n load-or-stores of the
@@ -150,6 +158,85 @@ def handleCloseB (n mask rounds seed : Nat) : String :=
   let s := runFan (closeShape Facts.closeSkel).cfg n mask seed
   let r := showClose n s
   if r == "stuck" then r else r ++ " intact=" ++ toString (reported n (bitMask mask) s)
+
+/-! eighth round: starts through the package-level entry points; closers of other Go kinds -/
+
+def posOf (x : Nat) : List Nat → Option Nat
+  | [] => none
+  | y :: ys => if x == y then some 0 else (posOf x ys).map (· + 1)
+
+/-- the Close system over the closers `present` (numbers below `total`); closer i fails iff bit i of mask. Observation per
+    closer 0..total-1; a closer that is not among the App's closers is never invoked. -/
+def showPresent (total : Nat) (present : List Nat) (mask seed : Nat) : String :=
+  let k := present.length
+  let fails : Nat → Bool := fun j => mask.testBit (present.getD j 0)
+  let s := schedule (closeShape Facts.closeSkel).cfg k fails (40 * (k + 2)) seed init
+  if s.mainPc != 3 then "stuck" else
+  "calls=" ++ joinC ((List.range total).map fun i => match posOf i present with
+      | some j => toString (s.calls j) | none => "0") ++
+  " done=" ++ joinC ((List.range total).map fun i => match posOf i present with
+      | some j => if s.wpc j == WPc.finished then "1" else "0" | none => "0")
+
+def parseCount (t : String) : Option Nat :=
+  match t.toNat? with
+  | some v => if 1 ≤ v && v ≤ 8 && toString v == t then some v else none
+  | none => none
+
+/-- counts 1..8 joined by `.`, at most `max` of them; `-` = none -/
+def parseCounts (s : String) (max : Nat) : Option (List Nat) :=
+  if s == "-" then some [] else
+  let ks := (s.splitOn ".").map parseCount
+  if ks.any Option.isNone || ks.length > max then none else some (ks.filterMap id)
+
+/-- an option token of `closep`: `r` (none) or a count -/
+def parsePOpt (t : String) : Option (Option Nat) := if t == "r" then some none else (parseCount t).map some
+
+/-- `r` after a count -/
+def registryAfterComponents : List (Option Nat) → Bool
+  | [] => false
+  | some _ :: rest => rest.any Option.isNone
+  | none :: rest => registryAfterComponents rest
+
+/-- consecutive numbers from `next` on for every count; `none` = SetRegistry -/
+def numberOpts : Nat → List (Option Nat) → List ROpt
+  | _, [] => []
+  | next, none :: rest => .setRegistry :: numberOpts next rest
+  | next, some k :: rest => .setComponents ((List.range k).map (· + next)) :: numberOpts (next + k) rest
+
+def sumL (l : List Nat) : Nat := l.foldl (· + ·) 0
+
+/-- `closep`: the ioc.Register calls, then ioc.Run with the call's own options -/
+def handleCloseP (regs opts : String) (mask seed : Nat) : String :=
+  match parseCounts regs 6 with
+  | none => "bad-line"
+  | some groups =>
+    let toks := if opts == "-" then [] else opts.splitOn "."
+    let parsed := toks.map parsePOpt
+    if toks.length > 8 || parsed.any Option.isNone then "bad-line" else
+    let ps := parsed.filterMap id
+    let nreg := sumL groups
+    let total := nreg + sumL (ps.filterMap id)
+    if registryAfterComponents ps || total > 60 || !bitsBelow mask total then "bad-line" else
+    let handlers := (numberOpts 0 (groups.map some)).foldl (fun hs o => iocRegister hs o.ids) []
+    let ops := numberOpts nreg ps
+    showPresent total (iocRunRegistry ops handlers) mask seed
+
+def kindOf : Char → Option CKind
+  | 's' => some .struct
+  | 'i' => some .int | 'I' => some .int
+  | 'l' => some .slice | 'L' => some .slice
+  | 'c' => some .chan | 'C' => some .chan
+  | 't' => some .text
+  | 'm' => some .map
+  | _ => none
+
+/-- `closek`: every closer gets its definition in the tag scan, whatever its kind -/
+def handleCloseK (n mask : Nat) (kinds : String) (seed : Nat) : String :=
+  let cs := if n == 0 && kinds == "-" then [] else kinds.toList
+  let ks := cs.map kindOf
+  let upper := cs.filter fun c => c == 'I' || c == 'L' || c == 'C'
+  if n > 40 || cs.length != n || ks.any Option.isNone || upper.eraseDups.length != upper.length || !bitsBelow mask n then "bad-line" else
+  showPresent n (scanDefined codeScanGuard ((List.range n).zip (ks.filterMap id))) mask seed
 
 /-! seventh round -/
 
@@ -340,6 +427,8 @@ def handle (line : String) : String :=
   | ["closel", n, mask, rounds, seed] => handleCloseL (natOr n 99) (natOr mask 0) (natOr rounds 0) (natOr seed 0)
   | ["closec", n, mask, groups, seed] => handleCloseC (natOr n 99) (natOr mask 0) groups (natOr seed 0)
   | ["closeb", n, mask, rounds, seed] => handleCloseB (natOr n 99) (natOr mask 0) (natOr rounds 0) (natOr seed 0)
+  | ["closep", regs, opts, mask, seed] => handleCloseP regs opts (natOr mask 0) (natOr seed 0)
+  | ["closek", n, mask, kinds, seed] => handleCloseK (natOr n 99) (natOr mask 0) kinds (natOr seed 0)
   | ["plog", apps, n, nc, first, flags, _seed] =>
     handlePlog (natOr apps 0) (natOr n 0) (natOr nc 99) (natOr first 0) (natOr flags 0)
   | ["rdel", g, rounds] => handleRdel (natOr g 0) (natOr rounds 0)
